@@ -1,7 +1,7 @@
 (* Lsip — SIP decoder (layers/sip.go, as repaired): contributions to C19, C05, C01.  SIP has no SerializeTo: C06 and
    C07 do not apply.  The model is byte-wise and faithful for ASCII input (see Model/LsipModel.v); other input
    answers Err 77. *)
-From GP Require Import Base Codec MiscLib MidLib LsipModel LsipProofs.
+From GP Require Import Base Codec MiscLib MidLib LsipModel LsipProofs LsipFresh.
 From Coq Require Import String Ascii.
 Open Scope string_scope.
 Definition s2b (s : string) : list Z := map (fun a => Z.of_nat (nat_of_ascii a)) (list_ascii_of_string s).
@@ -18,12 +18,12 @@ Theorem C19_sip_fuel : forall old data, snd (fst (sp_decode_into old data)) <> E
 Proof. intros old data. exact (proj2 (sp_decode_good old data)). Qed.
 Print Assumptions C19_sip_fuel.
 
-(* C05: decoding into a reused object = decoding into a zero object that shares only BaseLayer (which a successful
-   decode replaces) *)
+(* C05: decoding into a reused object = decoding into a zero object (&SIP{}): same outcome, same truncated flag and,
+   when the decode succeeds, the same layer — nothing of the receiver, not even its BaseLayer, survives *)
 Theorem C05_sip_fresh : forall old data,
-  let r1 := sp_decode_into old data in let r2 := sp_decode_into (sp_keep old) data in
+  let r1 := sp_decode_into old data in let r2 := sp_decode_into sp_fresh data in
   snd (fst r1) = snd (fst r2) /\ snd r1 = snd r2 /\ (snd (fst r1) = Ok tt -> fst (fst r1) = fst (fst r2)).
-Proof. exact sp_decode_fresh. Qed.
+Proof. exact sp_decode_fresh0. Qed.
 Print Assumptions C05_sip_fresh.
 
 (* the original DecodeFromBytes reset nothing: a request decoded into a layer that had decoded a response keeps
